@@ -300,3 +300,18 @@ func f32sTo64(x []float32) []float64 {
 	}
 	return out
 }
+
+// forceOp, when non-empty and among the choices, replaces the operator draw of the family
+// generators (used by C15's registry-independence check to get several cases of one operator).
+var forceOp string
+
+func drawOp(rt *rapid.T, choices []string) string {
+	if forceOp != "" {
+		for _, c := range choices {
+			if c == forceOp {
+				return c
+			}
+		}
+	}
+	return rapid.SampledFrom(choices).Draw(rt, "op")
+}
